@@ -100,7 +100,7 @@ Theorem parse_file_wf ws ae name src t :
   parse_file ws ae name src = POk t -> wf_top (t_body t) = true.
 Proof.
   unfold parse_file. destruct (ws_of_text ws) as [m|]; [|discriminate].
-  destruct (parse_body (S (List.length src)) (mkR src 1 m ae) None false []) as [[body st]|] eqn:E;
+  destruct (parse_body (S (List.length src)) (mkR src 1 m ae 0) None false []) as [[body st]|] eqn:E;
     [|discriminate].
   intros H. inversion H; subst. simpl.
   destruct (parse_body_wf _ _ _ _ _ _ _ E eq_refl (fun _ => eq_refl)) as [B1 B2].
